@@ -70,15 +70,20 @@ pub struct C07 {
     /// open notional + |realised PnL|: first operand of the new-open-notional line of a partial liquidation in the two
     /// cases where the engine adds the realised PnL before subtracting the exchanged quote (long in profit, short in loss)
     notional_ctx: Option<u128>,
+    /// registered with the insurance fund according to the ACCEPTED AddVamm / RemoveVamm calls (the deployment registers
+    /// live vAMMs of matching decimals), not according to what the fund reports
+    own_reg: Vec<bool>,
 }
 
 impl Monitor for C07 {
     fn prop(&self) -> &'static str {
         "C07"
     }
-    fn begin(&mut self, _w: &World, s0: &Snap, _r: &mut Report) {
+    fn begin(&mut self, w: &World, s0: &Snap, _r: &mut Report) {
         self.band.begin(s0);
         self.sh.begin(s0);
+        let d8 = w.cfg.decimals();
+        self.own_reg = w.cfg.vamms.iter().map(|v| v.live && v.decimals.unwrap_or(d8) == d8).collect();
     }
     fn pre(&mut self, w: &World, op: &Op, pre: &Snap, r: &mut Report) {
         self.expect = None;
@@ -111,7 +116,8 @@ impl Monitor for C07 {
             return;
         }
         r.count("under-margined-attempts");
-        if !vs.open || !vs.registered {
+        let registered = self.own_reg.get(vi).cloned().unwrap_or(vs.registered);
+        if !vs.open || !registered {
             r.count("skip:closed-or-unregistered");
             return;
         }
@@ -197,6 +203,21 @@ impl Monitor for C07 {
     fn post(&mut self, w: &World, st: &Step, r: &mut Report) {
         self.band.observe(&st.pre, &st.post);
         self.sh.observe(w, st);
+        if let (true, Op::Insurance { msg, .. }) = (st.out.ok, &st.op) {
+            match msg {
+                margined_perp::margined_insurance_fund::ExecuteMsg::AddVamm { vamm } => {
+                    if let Some(i) = w.vamm_idx(vamm) {
+                        self.own_reg[i] = true;
+                    }
+                }
+                margined_perp::margined_insurance_fund::ExecuteMsg::RemoveVamm { vamm } => {
+                    if let Some(i) = w.vamm_idx(vamm) {
+                        self.own_reg[i] = false;
+                    }
+                }
+                _ => {}
+            }
+        }
         let Some((ctx, detail)) = self.expect.take() else { return };
         if st.armed.is_some() && st.out.fault_fired {
             return;
